@@ -7,6 +7,7 @@ import (
 	"go/printer"
 	"go/token"
 	"os"
+	"path/filepath"
 	"regexp"
 	"sort"
 
@@ -75,6 +76,9 @@ func NewParser(srcPath, dstPath string) (*Parser, error) {
 			return file, nil
 		},
 	}
+	if dstStat != nil {
+		cfg.Overlay = overlayOutputFile(srcPath, dstPath)
+	}
 	pkgs, err := packages.Load(cfg, "file="+srcPath)
 	if err != nil {
 		return nil, logger.Errorf("%v: failed to load type information: \n%w", srcPath, err)
@@ -119,6 +123,26 @@ func NewParser(srcPath, dstPath string) (*Parser, error) {
 		opts:    option.NewOptions(),
 		imports: imports,
 	}, nil
+}
+
+// overlayOutputFile returns an overlay that presents the existing output file as an empty
+// file of the setup file's package. Whatever the output path holds - the result of an earlier
+// run, or a file cut off by an interrupted write, possibly in the middle of its package
+// clause - must not take part in loading the package.
+func overlayOutputFile(srcPath, dstPath string) map[string][]byte {
+	absSrc, err := filepath.Abs(srcPath)
+	if err != nil {
+		return nil
+	}
+	absDst, err := filepath.Abs(dstPath)
+	if err != nil || filepath.Dir(absSrc) != filepath.Dir(absDst) {
+		return nil
+	}
+	file, err := parser.ParseFile(token.NewFileSet(), srcPath, nil, parser.PackageClauseOnly)
+	if err != nil || file.Name == nil {
+		return nil
+	}
+	return map[string][]byte{absDst: []byte("package " + file.Name.Name + "\n")}
 }
 
 // Parse parses convergen annotations in the source code.
